@@ -33,6 +33,19 @@ Explained(e) ==
     [] e.op = "dims" -> ~e.panic /\ e.rn = e.pre.n /\ e.rm1 = e.pre.m1 /\ e.rm2 = e.pre.m2
     [] e.op = "new" -> ~e.panic /\ SameBand(e.post, BNew(e.n, e.m1, e.m2, e.x))
     [] e.op = "clone" -> GoodRB(e, e.pre)
+    \* ---- the std-trait forms.  t.clone_from(&s): the target becomes a copy of the source, GEOMETRY INCLUDED, whatever it was
+    \* before (same storage shape with another split, same number of slots, larger, smaller); the source is untouched
+    [] e.op = "clone_from" -> ~e.panic /\ SameBand(e.post, e.b) /\ SameBand(e.bpost, e.b)
+    [] e.op = "clone_into" -> GoodRB(e, e.pre)                        \* the second object .clone_from(this one)
+    \* the second object still holds what it held when it was last written (independence of the two objects)
+    [] e.op = "aux_same" -> ~e.panic /\ SameBand(e.post, e.pre) /\ SameBand(e.rb, e.want)
+    [] e.op = "reclone" -> GoodB(e, e.pre)                            \* replaced by its own clone, the original dropped
+    \* == and !=: identical geometry and storage -> equal; dense twins that differ -> not equal (equal dense twins in
+    \* different geometries or with different padding: either answer); != is the negation
+    [] e.op = "eq" -> /\ ~e.panic /\ e.rne = ~e.r
+                      /\ LET same == EqAll(e.pre, e.b) /\ (Has(e, "prei") => EqAll(e.prei, e.bi))
+                             diff == DenseDiff(e.pre, e.b) \/ (Has(e, "prei") /\ DenseDiff(e.prei, e.bi))
+                         IN (same => e.r) /\ (diff => ~e.r)
     [] e.op = "set" -> IF InBand(e.pre, e.i, e.j) THEN GoodB(e, BSet(e.pre, e.i, e.j, e.x)) ELSE e.panic
     \* resize re-interprets the storage (the property is silent on what it keeps): only the new geometry is demanded;
     \* whatever the object then holds is the operand of the following events
@@ -92,6 +105,10 @@ Explained(e) ==
     \* ---- floats: integer error units measured by the harness against double-double references ----
     [] e.op = "det_units" -> ~e.panic /\ UnitsOK(e)
     [] e.op = "solve_units" -> ~e.panic /\ UnitsOK(e)
+    \* growth adversaries: residual componentwise in units of eps (|L||U||x|)_i with the factors of a reference elimination with
+    \* partial pivoting in double-double (logged only when none of its pivot choices is tied or nearly tied): Higham Thm 9.4
+    \* gives gamma_3n ~ 1.5 n eps WITHOUT the growth factor; the guard is a factor 10 above that (x4 complex)
+    [] e.op = "solve_sharp" -> ~e.panic /\ e.cunits >= 0 /\ e.cunits <= (IF e.cxf THEN 4 ELSE 1) * 16 * e.n
     [] OTHER -> FALSE
 
 \* ---- model state ----
@@ -104,8 +121,9 @@ PreOK(e) == IF ~IsSeq(e) \/ e.op \in {"built", "empty", "resize"} THEN TRUE
             ELSE IF TwoParts(e) THEN SameBand(e.pre, cur) /\ SameBand(e.prei, curi)
             ELSE IF ImPart(e) THEN SameBand(e.pre, curi) ELSE SameBand(e.pre, cur)
 \* the model's next value after a mutating operation (one part)
-Mutators == {"set", "set_all", "fill", "fill_band", "add_assign", "sub_assign", "mul_assign", "div_assign", "add_scalar_assign", "sub_scalar_assign"}
-After(e) == CASE e.op = "set" -> BSet(e.pre, e.i, e.j, e.x)
+Mutators == {"clone_from", "set", "set_all", "fill", "fill_band", "add_assign", "sub_assign", "mul_assign", "div_assign", "add_scalar_assign", "sub_scalar_assign"}
+After(e) == CASE e.op = "clone_from" -> e.b
+              [] e.op = "set" -> BSet(e.pre, e.i, e.j, e.x)
               [] e.op = "set_all" -> FromDense(e.vals, e.pre.m1, e.pre.m2)
               [] e.op = "fill" -> BFill(e.pre, e.x)
               [] e.op = "fill_band" -> BFillBand(e.pre, e.kb, e.x)
